@@ -12,43 +12,47 @@ open SV SV.Spec.JsonSchema SV.Model.C03 SV.Spec.C03 SV.Proofs.C03
 /-! ## numbers: `_positive_number` -/
 
 /-- Full statement for `_positive_number`: whatever the schema, every emitted value's label matches its content
-    (oracle answers assumed valid for the schema they were requested for). -/
-def positive_number_full (vz vx : Variant) : Prop :=
+    (oracle answers assumed valid for the schema they were requested for).
+    Sites: `vz` zero bound (F6), `vx` exclusive bounds (F7), `vc` crossing guard of the boundary values (F6c). -/
+def positive_number_full (vz vx vc : Variant) : Prop :=
   ∀ (fuel : Nat) (env : Env) (kvs : List (String × Json)),
-    Sound (fun gv => labelOk (fuel + 1) env (.obj kvs) gv = true) (callSound (fuel + 1) env) (positiveNumber vz vx kvs)
+    Sound (fun gv => labelOk (fuel + 1) env (.obj kvs) gv = true) (callSound (fuel + 1) env) (positiveNumber vz vx vc kvs)
 
-/-- C03 / numbers, repaired generator (`is None` tests, draft-4 booleans read as flags, exclusive and inclusive
-    bounds combined): on every satisfiable integer/number schema over the numeric keyword family, every value
-    emitted by `_positive_number` that is not a copied example/default conforms to the schema. -/
+/-- C03 / numbers, the generator with all three sites repaired (`is None` tests, draft-4 booleans read as flags,
+    exclusive and inclusive bounds combined, every boundary value tested against the opposite bound): on EVERY
+    integer/number schema over the numeric keyword family — satisfiable or not, bounds crossing or not, no multiple in
+    range or some — every value emitted by `_positive_number` that is not a copied example/default conforms to the
+    schema.  (No satisfiability hypothesis: each emitted value is checked against both effective bounds and is a
+    multiple by construction.) -/
 theorem positive_number_valid (fuel : Nat) (env : Env) (kvs : List (String × Json)) (k : NumKw)
     (hparse : parseNumKw kvs = some k)
     (htype : Json.lookup "type" kvs = some (.str "integer") ∨ Json.lookup "type" kvs = some (.str "number"))
     (hplain : plainKeys kvs)
-    (hpos : ∀ x, k.multipleOf = some x → 0 < x)
-    (hsat : ∃ n0 : Int, validF (fuel + 1) env (.obj kvs) (.num n0 0) = true) :
+    (hpos : ∀ x, k.multipleOf = some x → 0 < x) :
     Sound (fun gv => labelOk (fuel + 1) env (.obj kvs) gv = true) (callSound (fuel + 1) env)
-      (positiveNumber .repaired .repaired kvs) :=
-  positive_number_valid_of .repaired .repaired fuel env kvs k rfl hparse htype hplain hpos hsat
+      (positiveNumber .repaired .repaired .repaired kvs) :=
+  positive_number_valid_of .repaired .repaired .repaired fuel env kvs k rfl hparse htype hplain hpos (by intro h; cases h)
 
 /-- Whatever mix of repairs a tree carries: `_positive_number` is sound away from the defect sites it still has —
     F7 (site `vx`): no exclusive bound that the snapshot misreads (`effMin/effMax` agree with the repaired reading);
-    F6 (site `vz`, `not maximum`): an effective maximum that is not 0. -/
-theorem positive_number_partial (vz vx : Variant) (fuel : Nat) (env : Env) (kvs : List (String × Json)) (k : NumKw)
+    F6 (site `vz`, `not maximum`): an effective maximum that is not 0;
+    F6c (site `vc`, no crossing guard): some integer satisfies the schema. -/
+theorem positive_number_partial (vz vx vc : Variant) (fuel : Nat) (env : Env) (kvs : List (String × Json)) (k : NumKw)
     (hparse : parseNumKw kvs = some k)
     (htype : Json.lookup "type" kvs = some (.str "integer") ∨ Json.lookup "type" kvs = some (.str "number"))
     (hplain : plainKeys kvs)
     (hpos : ∀ x, k.multipleOf = some x → 0 < x)
-    (hsat : ∃ n0 : Int, validF (fuel + 1) env (.obj kvs) (.num n0 0) = true)
+    (hsat : vc = .asFound → ∃ n0 : Int, validF (fuel + 1) env (.obj kvs) (.num n0 0) = true)
     (hmin : vx = .asFound → effMin .asFound k = effMin .repaired k)
     (hmax : vx = .asFound → effMax .asFound k = effMax .repaired k)
     (hzero : vz = .asFound → effMax .repaired k ≠ some 0) :
     Sound (fun gv => labelOk (fuel + 1) env (.obj kvs) gv = true) (callSound (fuel + 1) env)
-      (positiveNumber vz vx kvs) := by
-  apply positive_number_valid_of vz vx fuel env kvs k _ hparse htype hplain hpos hsat
+      (positiveNumber vz vx vc kvs) := by
+  apply positive_number_valid_of vz vx vc fuel env kvs k _ hparse htype hplain hpos hsat
   have hmn : effMin vx k = effMin .repaired k := by cases vx <;> simp_all
   have hmx : effMax vx k = effMax .repaired k := by cases vx <;> simp_all
-  have : numLower vz (effMin .repaired k) (effMax .repaired k) k.multipleOf =
-         numLower .repaired (effMin .repaired k) (effMax .repaired k) k.multipleOf := by
+  have : numLower vz vc (effMin .repaired k) (effMax .repaired k) k.multipleOf =
+         numLower .repaired vc (effMin .repaired k) (effMax .repaired k) k.multipleOf := by
     cases vz with
     | repaired => rfl
     | asFound =>
@@ -60,56 +64,115 @@ theorem positive_number_partial (vz vx : Variant) (fuel : Nat) (env : Env) (kvs 
         simp [isAbsent, this]
   simp only [numBoundary, hmn, hmx, this]
 
+/-- The pre-2d700c38 statement as a corollary: without the crossing guard, satisfiable schemas are handled correctly. -/
+theorem positive_number_valid_satisfiable (fuel : Nat) (env : Env) (kvs : List (String × Json)) (k : NumKw)
+    (hparse : parseNumKw kvs = some k)
+    (htype : Json.lookup "type" kvs = some (.str "integer") ∨ Json.lookup "type" kvs = some (.str "number"))
+    (hplain : plainKeys kvs)
+    (hpos : ∀ x, k.multipleOf = some x → 0 < x)
+    (hsat : ∃ n0 : Int, validF (fuel + 1) env (.obj kvs) (.num n0 0) = true) :
+    Sound (fun gv => labelOk (fuel + 1) env (.obj kvs) gv = true) (callSound (fuel + 1) env)
+      (positiveNumber .repaired .repaired .asFound kvs) :=
+  positive_number_valid_of .repaired .repaired .asFound fuel env kvs k rfl hparse htype hplain hpos (fun _ => hsat)
+
 /-! ### witnesses (replayed on the real code by the harness) -/
 
 private def st0 : St := { orc := [.val (.num 0 0)], seen := [] }
-private def badPositive (v : Variant) (kvs : List (String × Json)) (n : Int) : Bool :=
-  ((positiveNumber v v kvs st0).out.any fun gv =>
+private def badPositive (vz vx vc : Variant) (kvs : List (String × Json)) (n : Int) : Bool :=
+  ((positiveNumber vz vx vc kvs st0).out.any fun gv =>
     gv.value == Json.num n 0 && gv.mode == .positive && !(labelOk 2 {} (.obj kvs) gv))
+private def allGood (kvs : List (String × Json)) : Bool :=
+  (positiveNumber .repaired .repaired .repaired kvs st0).out.all fun gv => labelOk 2 {} (.obj kvs) gv
 
-/-- F6: `minimum = maximum = 0` — the snapshot emits 1 as a positive "Near-boundary number"; the repair does not. -/
+/-- F6 (site `vz` alone as found): `minimum = maximum = 0` — 1 is emitted as a positive "Near-boundary number";
+    the repair does not. -/
 def kvsF6 : List (String × Json) := [("type", .str "integer"), ("minimum", .num 0 0), ("maximum", .num 0 0)]
-theorem F6_zero_bound_witness : badPositive .asFound kvsF6 1 = true ∧
-    ((positiveNumber .repaired .repaired kvsF6 st0).out.all fun gv => labelOk 2 {} (.obj kvsF6) gv) = true := by
+theorem F6_zero_bound_witness : badPositive .asFound .repaired .repaired kvsF6 1 = true ∧ allGood kvsF6 = true := by
   decide
 
-/-- F7: draft-4 `exclusiveMinimum: true` next to `minimum: 5` — the snapshot computes `True + 1` and emits 2 -/
+/-- F7 (site `vx` alone as found): draft-4 `exclusiveMinimum: true` next to `minimum: 5` — the snapshot computes
+    `True + 1` and emits 2 -/
 def kvsF7 : List (String × Json) := [("type", .str "integer"), ("minimum", .num 5 0), ("exclusiveMinimum", .bool true)]
-theorem F7_boolean_exclusive_witness : badPositive .asFound kvsF7 2 = true ∧
-    ((positiveNumber .repaired .repaired kvsF7 st0).out.all fun gv => labelOk 2 {} (.obj kvsF7) gv) = true := by
+theorem F7_boolean_exclusive_witness : badPositive .repaired .asFound .repaired kvsF7 2 = true ∧ allGood kvsF7 = true := by
   decide
 
 /-- F7 (numeric form): `exclusiveMinimum: 3` makes the snapshot forget `minimum: 10` and emit 4 -/
 def kvsF7n : List (String × Json) := [("type", .str "integer"), ("minimum", .num 10 0), ("exclusiveMinimum", .num 3 0)]
-theorem F7_numeric_exclusive_witness : badPositive .asFound kvsF7n 4 = true ∧
-    ((positiveNumber .repaired .repaired kvsF7n st0).out.all fun gv => labelOk 2 {} (.obj kvsF7n) gv) = true := by
+theorem F7_numeric_exclusive_witness : badPositive .repaired .asFound .repaired kvsF7n 4 = true ∧ allGood kvsF7n = true := by
   decide
 
-theorem positive_number_full_false_asFound : ¬ positive_number_full .asFound .asFound := by
-  intro h
-  have hc : (positiveNumber .asFound .asFound kvsF7 st0).calls = [] := by rfl
-  have := h 1 {} kvsF7 st0 (by rw [hc]; intro c h; cases h)
-  revert this
-  decide
-
-/-- The full statement also fails for the repaired generator, but only on schemas no number satisfies
-    (`minimum: 1, maximum: 2, multipleOf: 3` → 3 is emitted as "Minimum value"). -/
+/-- F6c (site `vc` alone as found): `minimum: 1, maximum: 2, multipleOf: 3` — no multiple in range, 3 is emitted as
+    "Minimum value" (and 0 as "Maximum value"); with the crossing guard nothing is emitted at all. -/
 def kvsUnsat : List (String × Json) :=
   [("type", .str "integer"), ("minimum", .num 1 0), ("maximum", .num 2 0), ("multipleOf", .num 3 0)]
-theorem positive_number_full_false_repaired : ¬ positive_number_full .repaired .repaired := by
-  intro h
-  have hc : (positiveNumber .repaired .repaired kvsUnsat st0).calls = [] := by rfl
-  have := h 1 {} kvsUnsat st0 (by rw [hc]; intro c h; cases h)
-  revert this
+theorem F6c_no_multiple_in_range_witness :
+    badPositive .repaired .repaired .asFound kvsUnsat 3 = true ∧ badPositive .repaired .repaired .asFound kvsUnsat 0 = true ∧
+    (positiveNumber .repaired .repaired .repaired kvsUnsat st0).out = [] := by
   decide
 
+/-- F6c, second form (the exclusive-bound step moves the maximum below the minimum): `minimum: -3, maximum: -3,
+    exclusiveMaximum: true` — -4 is emitted as "Maximum value" and -3 as "Minimum value"; guarded: nothing. -/
+def kvsCross : List (String × Json) :=
+  [("type", .str "integer"), ("minimum", .num (-3) 0), ("maximum", .num (-3) 0), ("exclusiveMaximum", .bool true)]
+theorem F6c_crossing_bounds_witness :
+    badPositive .repaired .repaired .asFound kvsCross (-4) = true ∧ badPositive .repaired .repaired .asFound kvsCross (-3) = true ∧
+    (positiveNumber .repaired .repaired .repaired kvsCross st0).out = [] := by
+  decide
+
+private theorem full_false_of (vz vx vc : Variant) (kvs : List (String × Json))
+    (hc : (positiveNumber vz vx vc kvs st0).calls.isEmpty = true)
+    (hbad : ((positiveNumber vz vx vc kvs st0).out.all fun gv => labelOk 2 {} (.obj kvs) gv) = false) :
+    ¬ positive_number_full vz vx vc := by
+  intro h
+  have := h 1 {} kvs st0 (by rw [List.isEmpty_iff.1 hc]; intro c h; cases h)
+  have hall : ((positiveNumber vz vx vc kvs st0).out.all fun gv => labelOk 2 {} (.obj kvs) gv) = true := by
+    simp only [List.all_eq_true]; exact this
+  rw [hbad] at hall; cases hall
+
+/-- F6 without an oracle call: `minimum: -1, maximum: 0, multipleOf: 2` — 2 is emitted as "Near-boundary number" -/
+def kvsF6m : List (String × Json) :=
+  [("type", .str "integer"), ("minimum", .num (-1) 0), ("maximum", .num 0 0), ("multipleOf", .num 2 0)]
+
+/-- each site alone, as found, falsifies the full statement -/
+theorem positive_number_full_false_zero : ¬ positive_number_full .asFound .repaired .repaired :=
+  full_false_of _ _ _ kvsF6m (by decide) (by decide)
+theorem positive_number_full_false_excl : ¬ positive_number_full .repaired .asFound .repaired :=
+  full_false_of _ _ _ kvsF7 (by decide) (by decide)
+theorem positive_number_full_false_cross : ¬ positive_number_full .repaired .repaired .asFound :=
+  full_false_of _ _ _ kvsUnsat (by decide) (by decide)
+/-- the snapshot (all three sites as found) -/
+theorem positive_number_full_false_asFound : ¬ positive_number_full .asFound .asFound .asFound :=
+  full_false_of _ _ _ kvsF7 (by decide) (by decide)
+
+/-- What is still false with all three sites repaired: `_positive_number` reads the numeric keyword family only, so a
+    sibling keyword outside it can reject a boundary value (`minimum: 1, not: {maximum: 1}` → 1 "Minimum value").
+    This is the part of the statement carried by the hypothesis `plainKeys` of `positive_number_valid`
+    (on the real code: finding F9b, positive-next-to-combinator-rejected). -/
+def kvsNot : List (String × Json) :=
+  [("type", .str "integer"), ("minimum", .num 1 0), ("not", .obj [("maximum", .num 1 0)])]
+theorem positive_number_full_false_repaired : ¬ positive_number_full .repaired .repaired .repaired :=
+  full_false_of _ _ _ kvsNot (by decide) (by decide)
+
 /-- non-vacuity of `positive_number_valid`: hypotheses met by `{type: integer, minimum: -1, maximum: 4, multipleOf: 2}`
-    and the generator emits four values -/
-example : ∃ kvs k, parseNumKw kvs = some k ∧ Json.lookup "type" kvs = some (.str "integer") ∧
-    (∀ x, k.multipleOf = some x → 0 < x) ∧ validF 2 {} (.obj kvs) (.num 0 0) = true ∧
-    ((positiveNumber .repaired .repaired kvs st0).out.map (·.value.int?)) = [some 0, some 2, some 4] :=
+    (the generator emits three values) and by the unsatisfiable `kvsUnsat` (it emits none) -/
+example : ∃ kvs k, parseNumKw kvs = some k ∧ Json.lookup "type" kvs = some (.str "integer") ∧ plainKeys kvs ∧
+    (∀ x, k.multipleOf = some x → 0 < x) ∧
+    ((positiveNumber .repaired .repaired .repaired kvs st0).out.map (·.value.int?)) = [some 0, some 2, some 4] :=
   ⟨[("type", .str "integer"), ("minimum", .num (-1) 0), ("maximum", .num 4 0), ("multipleOf", .num 2 0)],
-   ⟨some (-1), some 4, none, none, some 2⟩, by rfl, by rfl, by intro x h; cases h; decide, by decide, by decide⟩
+   ⟨some (-1), some 4, none, none, some 2⟩, by rfl, by rfl, ⟨rfl, rfl, rfl, rfl, rfl, rfl, rfl, rfl⟩,
+   by intro x h; cases h; decide, by decide⟩
+example : parseNumKw kvsUnsat = some ⟨some 1, some 2, none, none, some 3⟩ ∧ plainKeys kvsUnsat ∧
+    ((List.range 17).all fun i => !(validF 2 {} (.obj kvsUnsat) (.num ((i : Int) - 8) 0))) = true :=
+  ⟨by rfl, ⟨rfl, rfl, rfl, rfl, rfl, rfl, rfl, rfl⟩, by decide⟩
+
+/-- non-vacuity of `positive_number_partial` for the snapshot (all three sites as found): `{type: integer, minimum: 1,
+    maximum: 4}` meets every hypothesis (1 conforms, no exclusive bound, maximum ≠ 0) and four values are emitted -/
+example : ∃ kvs k, parseNumKw kvs = some k ∧ Json.lookup "type" kvs = some (.str "integer") ∧ plainKeys kvs ∧
+    (∀ x, k.multipleOf = some x → 0 < x) ∧ validF 2 {} (.obj kvs) (.num 1 0) = true ∧
+    effMin .asFound k = effMin .repaired k ∧ effMax .asFound k = effMax .repaired k ∧ effMax .repaired k ≠ some 0 ∧
+    ((positiveNumber .asFound .asFound .asFound kvs st0).out.map (·.value.int?)) = [some 1, some 2, some 4, some 3] :=
+  ⟨[("type", .str "integer"), ("minimum", .num 1 0), ("maximum", .num 4 0)], ⟨some 1, some 4, none, none, none⟩,
+   by rfl, by rfl, ⟨rfl, rfl, rfl, rfl, rfl, rfl, rfl, rfl⟩, (by intro x h; cases h), by decide, by rfl, by rfl, by decide, by decide⟩
 
 /-! ## cover_schema_iter -/
 
@@ -126,18 +189,19 @@ theorem cover_negative_only (fuel : Nat) (vs : Vs) (ctx : Ctx) (schema : Json) (
   intro gv hg
   exact sound_freshSeen (cover_negative_only_aux fuel vs ctx schema h) st (fun _ _ => trivial) gv hg
 
-/-- C03 for the numeric keyword family, end to end (repaired generator): for every satisfiable plain integer/number
-    schema (numeric keywords of either exclusive form, multipleOf > 0, any annotation keywords), every generation-mode
+/-- C03 for the numeric keyword family, end to end (any variant vector whose three `_positive_number` sites are
+    repaired; the other sites are not reachable from such a schema): for EVERY plain integer/number schema — satisfiable
+    or not — (numeric keywords of either exclusive form, multipleOf > 0, any annotation keywords), every generation-mode
     set, every location and every oracle that honours its contract (`oracleOk`: schema requests answered with valid
     instances, `_negative_type` draws of the announced JSON type), every value cover_schema_iter emits carries the
     right label: positives conform, negatives are rejected (copied examples/defaults exempt). -/
-theorem cover_numeric_labels (fuel n : Nat) (env : Env) (hoas : env.oas = Oas.none) (ctx : Ctx)
+theorem cover_numeric_labels (fuel n : Nat) (env : Env) (hoas : env.oas = Oas.none) (ctx : Ctx) (vs : Vs)
+    (hz : vs.zero = .repaired) (hx : vs.excl = .repaired) (hc : vs.cross = .repaired)
     (kvs : List (String × Json)) (k : NumKw) (hp : PlainNumeric kvs)
-    (hparse : parseNumKw kvs = some k) (hpos : ∀ x, k.multipleOf = some x → 0 < x)
-    (hsat : ∃ n0 : Int, validF (fuel + 3) env (.obj kvs) (.num n0 0) = true) :
+    (hparse : parseNumKw kvs = some k) (hpos : ∀ x, k.multipleOf = some x → 0 < x) :
     Sound (fun gv => labelOk (fuel + 3) env (.obj kvs) gv = true) (oracleOk (fuel + 3) env)
-      (coverTop (n + 1) ⟨.repaired, .repaired⟩ ctx (.obj kvs)) :=
-  cover_numeric_sound fuel n env hoas ctx kvs k hp hparse hpos hsat
+      (coverTop (n + 1) vs ctx (.obj kvs)) :=
+  cover_numeric_sound fuel n env hoas ctx vs hz hx hc kvs k hp hparse hpos
 
 /-- The bound arms violate the keyword their description blames, whatever else the schema says:
     `maximum + 1`, `minimum - 1`, and the numeric exclusive bound itself. -/
@@ -177,10 +241,10 @@ theorem numeric_negatives_as_described (env : Env) (kvs : List (String × Json))
 def kvsF7b : List (String × Json) := [("maximum", .num 5 0), ("exclusiveMaximum", .bool true)]
 private def ctxN : Ctx := ⟨"body", false, true, []⟩
 theorem F7b_boolean_emitted_witness :
-    ((coverTop 3 ⟨.asFound, .asFound⟩ ctxN (.obj kvsF7b) { orc := [], seen := [] }).out.any fun gv =>
+    ((coverTop 3 { Vs.repaired with excl := .asFound } ctxN (.obj kvsF7b) { orc := [], seen := [] }).out.any fun gv =>
         gv.value == Json.bool true && gv.mode == .negative && validF 2 {} (.obj kvsF7b) gv.value &&
         !(violatesAsDescribed {} kvsF7b gv)) = true ∧
-    ((coverTop 3 ⟨.repaired, .repaired⟩ ctxN (.obj kvsF7b) { orc := [], seen := [] }).out.all fun gv =>
+    ((coverTop 3 Vs.repaired ctxN (.obj kvsF7b) { orc := [], seen := [] }).out.all fun gv =>
         labelOk 2 {} (.obj kvsF7b) gv && violatesAsDescribed {} kvsF7b gv) = true := by
   decide
 
@@ -191,7 +255,7 @@ private def orcOk : List Ans :=
   [.val (.num 5 1), .val (.bool false), .val .null, .val (.str ""), .val (.arr [.null, .null]), .val (.obj [])]
 example : PlainNumeric kvsOk ∧ parseNumKw kvsOk = some ⟨some 0, some 3, none, none, none⟩ ∧
     validF 3 {} (.obj kvsOk) (.num 0 0) = true ∧
-    ((coverTop 2 ⟨.repaired, .repaired⟩ ⟨"body", true, true, []⟩ (.obj kvsOk) { orc := orcOk, seen := [] }).out.map
+    ((coverTop 2 Vs.repaired ⟨"body", true, true, []⟩ (.obj kvsOk) { orc := orcOk, seen := [] }).out.map
       (·.mode)) = [.positive, .positive, .positive, .positive, .negative, .negative, .negative, .negative, .negative,
                    .negative, .negative, .negative] := by
   refine ⟨⟨?_, ⟨"integer", rfl, Or.inl rfl⟩, ?_, ⟨rfl, rfl, rfl, rfl, rfl, rfl, rfl, rfl⟩⟩, rfl, by decide, by decide⟩
@@ -204,26 +268,114 @@ example : PlainNumeric kvsOk ∧ parseNumKw kvsOk = some ⟨some 0, some 3, none
 
 /-! ## strings: `_positive_string` -/
 
-/-- C03 / strings: on every string schema whose length bounds do not cross (minLength ≤ maxLength when both are
-    present; any pattern / format / other keywords next to them), every non-exempt value of `_positive_string`
-    conforms to the schema — the derived requests `{**schema, "minLength": a, "maxLength": b}` only tighten the
-    bounds, so an answer valid for the request (oracle contract) is valid for the schema. -/
-theorem positive_string_valid (fuel : Nat) (env : Env) (hoas : env.oas = Oas.none) (ctx : Ctx)
+/-- Full statement for `_positive_string` (site `vl`: crossing guard of the boundary lengths, F34) -/
+def positive_string_full (vl : Variant) : Prop :=
+  ∀ (fuel : Nat) (env : Env) (_ : env.oas = Oas.none) (ctx : Ctx) (kvs : List (String × Json)) (mn0 mx : Option Nat),
+    Json.lookup "$ref" kvs = none → lenKw? kvs "minLength" = some mn0 → lenKw? kvs "maxLength" = some mx →
+    Sound (fun gv => labelOk (fuel + 1) env (.obj kvs) gv = true) (callSound (fuel + 1) env) (positiveString vl ctx kvs)
+
+/-- C03 / strings, `_positive_string` with the crossing guard (the repair proposed for F34): on EVERY string schema
+    (any length bounds, crossing or not, any pattern / format / other keywords next to them) every non-exempt value
+    conforms to the schema — the derived requests `{**schema, "minLength": a, "maxLength": b}` only tighten the bounds,
+    so an answer valid for the request (oracle contract) is valid for the schema. -/
+theorem positive_string_valid : positive_string_full .repaired := by
+  intro fuel env hoas ctx kvs mn0 mx href hmn hmx
+  exact positive_string_sound .repaired fuel env hoas ctx kvs mn0 mx href hmn hmx (by intro h; cases h)
+
+/-- the code as found: the same on schemas whose length bounds do not cross (minLength ≤ maxLength when both are present) -/
+theorem positive_string_partial (vl : Variant) (fuel : Nat) (env : Env) (hoas : env.oas = Oas.none) (ctx : Ctx)
     (kvs : List (String × Json)) (mn0 mx : Option Nat) (href : Json.lookup "$ref" kvs = none)
     (hmn : lenKw? kvs "minLength" = some mn0) (hmx : lenKw? kvs "maxLength" = some mx)
-    (hsat : ∀ a b, mn0 = some a → mx = some b → a ≤ b) :
-    Sound (fun gv => labelOk (fuel + 1) env (.obj kvs) gv = true) (callSound (fuel + 1) env) (positiveString ctx kvs) :=
-  positive_string_sound fuel env hoas ctx kvs mn0 mx href hmn hmx hsat
+    (hsat : vl = .asFound → ∀ a b, mn0 = some a → mx = some b → a ≤ b) :
+    Sound (fun gv => labelOk (fuel + 1) env (.obj kvs) gv = true) (callSound (fuel + 1) env) (positiveString vl ctx kvs) :=
+  positive_string_sound vl fuel env hoas ctx kvs mn0 mx href hmn hmx hsat
+
+/-- F34 witness: `{type: string, minLength: 1, maxLength: 0}` — as found three requests are made and an oracle that
+    honours its contract ("0" for length 1, "00" for length 2, "" for length 0) yields three strings the schema rejects,
+    all labelled positive; with the guard no request is made. -/
+def kvsF34 : List (String × Json) := [("type", .str "string"), ("minLength", .num 1 0), ("maxLength", .num 0 0)]
+private def ctxB : Ctx := ⟨"body", true, false, []⟩
+private def stF34 : St := { orc := [.val (.str "0"), .val (.str "00"), .val (.str "")], seen := [] }
+theorem F34_crossing_lengths_witness :
+    ((positiveString .asFound ctxB kvsF34 stF34).calls.all fun c =>
+        match c.req, c.ans with | .schema s, .val v => validF 2 {} s v | _, _ => false) = true ∧
+    ((positiveString .asFound ctxB kvsF34 stF34).out.map fun gv => (gv.desc, labelOk 2 {} (.obj kvsF34) gv)) =
+      [(.minLengthString, false), (.nearBoundaryString, false), (.maxLengthString, false)] ∧
+    (positiveString .repaired ctxB kvsF34 stF34).calls.isEmpty = true ∧
+    (positiveString .repaired ctxB kvsF34 stF34).out = [] := by
+  decide
+
+theorem positive_string_full_false_asFound : ¬ positive_string_full .asFound := by
+  intro h
+  have hs := h 1 {} rfl ctxB kvsF34 (some 1) (some 0) rfl rfl rfl stF34
+  have hcalls : ∀ c ∈ (positiveString .asFound ctxB kvsF34 stF34).calls, callSound 2 {} c := by
+    intro c hc
+    have h1 := (List.all_eq_true.1 F34_crossing_lengths_witness.1) c hc
+    obtain ⟨req, ans⟩ := c
+    cases req <;> cases ans <;> simp_all [callSound]
+  have hall : ((positiveString .asFound ctxB kvsF34 stF34).out.all fun gv => labelOk 2 {} (.obj kvsF34) gv) = true := by
+    simp only [List.all_eq_true]; exact hs hcalls
+  revert hall; decide
 
 /-- non-vacuity: `{type: string, minLength: 1, maxLength: 3}` meets the hypotheses and the generator makes four
-    requests (lengths 1, 2, 3 and 2 again is de-duplicated: three values) -/
+    requests (lengths 1, 2, 3 and 2 again is de-duplicated: three values), the same in both variants -/
 example : lenKw? [("type", .str "string"), ("minLength", .num 1 0), ("maxLength", .num 3 0)] "minLength" = some (some 1) ∧
-    ((positiveString ⟨"body", true, false, []⟩ [("type", .str "string"), ("minLength", .num 1 0), ("maxLength", .num 3 0)]
+    (∀ vl, ((positiveString vl ⟨"body", true, false, []⟩ [("type", .str "string"), ("minLength", .num 1 0), ("maxLength", .num 3 0)]
         { orc := [.val (.str "a"), .val (.str "ab"), .val (.str "abc")], seen := [] }).out.map (·.desc)) =
-      [.minLengthString, .nearBoundaryString, .maxLengthString] := by
+      [.minLengthString, .nearBoundaryString, .maxLengthString]) := by
   constructor
   · rfl
-  · decide
+  · intro vl; cases vl <;> decide
+
+/-! ## the other proposed-repair sites (modelled so that the correspondence follows the tree; no label theorem) -/
+
+private def ctxPN : Ctx := ⟨"body", true, true, []⟩
+
+/-- F35 witness: `additionalProperties: {}` accepts every extra property; as found the object with the unknown property
+    is emitted as "Object with unexpected properties"; repaired (`value is False`): not emitted. -/
+def kvsF35 : List (String × Json) :=
+  [("type", .str "object"), ("properties", .obj [("a", .obj [("const", .num 1 0)])]), ("additionalProperties", .obj [])]
+private def stF35 : St := { orc := [.val (.obj [("a", .num 1 0)])], seen := [] }
+theorem F35_additionalProperties_schema_witness :
+    ((negArm (fun _ _ => Gen.nil) .repaired .asFound .repaired (ctxN.at "additionalProperties") kvsF35 ["object"]
+        "additionalProperties" (.obj []) stF35).out.map fun gv =>
+          (gv.desc, gv.mode, validF 3 {} (.obj kvsF35) gv.value)) = [(.unexpectedProperties, .negative, true)] ∧
+    (negArm (fun _ _ => Gen.nil) .repaired .repaired .repaired (ctxN.at "additionalProperties") kvsF35 ["object"]
+        "additionalProperties" (.obj []) stF35).out = [] := by
+  decide
+
+/-- F40 witness: the schema `false` — as found the six "valid" values of `true` are emitted as positives; repaired: nothing -/
+theorem F40_false_schema_witness :
+    ((coverTop 2 { Vs.repaired with falseSchema := .asFound } ⟨"body", true, false, []⟩ (.bool false)
+        { orc := [.val .null, .val .null, .val (.arr []), .val (.obj [])], seen := [] }).out.all fun gv =>
+          gv.mode == .positive && !(validF 2 {} (.bool false) gv.value)) = true ∧
+    ((coverTop 2 { Vs.repaired with falseSchema := .asFound } ⟨"body", true, false, []⟩ (.bool false)
+        { orc := [.val .null, .val .null, .val (.arr []), .val (.obj [])], seen := [] }).out.length) = 7 ∧
+    (coverTop 2 Vs.repaired ctxPN (.bool false) { orc := [], seen := [] }).out = [] := by
+  decide
+
+/-- F37 witness: `properties {a}, minProperties 1` with template `{a: 0}` — as found `{}` is emitted as
+    "Object with only required properties"; repaired: it is not. -/
+def kvsF37 : List (String × Json) :=
+  [("type", .str "object"), ("properties", .obj [("a", .obj [("const", .num 0 0)])]), ("minProperties", .num 1 0)]
+theorem F37_minProperties_witness :
+    ((positiveObject .asFound (fun _ => Gen.nil) kvsF37 (.obj [("a", .num 0 0)]) { orc := [], seen := [] }).out.any fun gv =>
+        gv.desc == .objectOnlyRequired && !(validF 3 {} (.obj kvsF37) gv.value)) = true ∧
+    ((positiveObject .repaired (fun _ => Gen.nil) kvsF37 (.obj [("a", .num 0 0)]) { orc := [], seen := [] }).out.all fun gv =>
+        validF 3 {} (.obj kvsF37) gv.value) = true := by
+  decide
+
+/-- F36 witness: `required: [a, zz]` with only `a` declared — as found the template schema requires `[a]`, repaired `[a, zz]` -/
+def kvsF36 : List (String × Json) :=
+  [("type", .str "object"), ("properties", .obj [("a", .obj [("type", .str "integer")])]), ("required", .arr [.str "a", .str "zz"])]
+private def requiredIs (t : Option Json) (names : List String) : Bool :=
+  match t with
+  | some (.obj k) => (match Json.lookup "required" k with | some r => r == Json.arr (names.map Json.str) | none => false)
+  | _ => false
+theorem F36_template_required_witness :
+    requiredIs (templateSchema .asFound 4 kvsF36 "object") ["a"] = true ∧
+    requiredIs (templateSchema .repaired 4 kvsF36 "object") ["a", "zz"] = true := by
+  decide
 
 /-! ## cases: `_iter_coverage_cases` -/
 
